@@ -222,7 +222,7 @@ func (t *T) Seen(set, elem string) {
 		m = map[string]struct{}{}
 		t.run.sets[set] = m
 	}
-	if len(m) < 5000 {
+	if len(m) < 200000 {
 		m[elem] = struct{}{}
 	}
 	t.run.mu.Unlock()
